@@ -686,16 +686,29 @@ func (e *Exec) sortInPlace(s *Term, es Sort, cmp func(a, b *Term) *Term) {
 	lo, hi := SOff(s), Add(SOff(s), SLen(s))
 	at := func(c, i *Term) *Term { return Select(Select(c, tgt), i) }
 	perm := Fresh("perm", ArraySort(SInt, SInt))
+	inv := Fresh("perminv", ArraySort(SInt, SInt))
 	inR := func(i *Term) *Term { return And(Le(lo, i), Lt(i, hi)) }
 	facts := []*Term{
 		Forall([]*Term{ba}, Implies(Neq(ba, tgt), Eq(Select(newComp, ba), Select(comp, ba))), []*Term{Select(newComp, ba)}),
 		Forall([]*Term{bi}, Implies(Not(inR(bi)), Eq(at(newComp, bi), at(comp, bi))), []*Term{at(newComp, bi)}),
-		// permutation: new[i] = old[perm[i]], perm is a bijection on the window
-		Forall([]*Term{bi}, Implies(inR(bi), And(inR(Select(perm, bi)), Eq(at(newComp, bi), at(comp, Select(perm, bi))))), []*Term{at(newComp, bi)}),
-		Forall([]*Term{bi, bj}, Implies(And(inR(bi), inR(bj), Neq(bi, bj)), Neq(Select(perm, bi), Select(perm, bj)))),
+		// permutation: new[i] = old[perm[i]]; perm maps the window into itself and has the inverse inv (so it is a
+		// bijection: nothing is lost, nothing is duplicated)
+		Forall([]*Term{bi}, Implies(inR(bi), And(inR(Select(perm, bi)), Eq(Select(inv, Select(perm, bi)), bi), Eq(at(newComp, bi), at(comp, Select(perm, bi))))), []*Term{at(newComp, bi)}, []*Term{Select(perm, bi)}),
+		Forall([]*Term{bj}, Implies(inR(bj), And(inR(Select(inv, bj)), Eq(Select(perm, Select(inv, bj)), bj), Eq(at(newComp, Select(inv, bj)), at(comp, bj)))), []*Term{at(comp, bj)}, []*Term{Select(inv, bj)}),
 		// ordered
-		Forall([]*Term{bi, bj}, Implies(And(inR(bi), inR(bj), Lt(bi, bj)), Le(cmp(at(newComp, bi), at(newComp, bj)), IntLit(0)))),
+		Forall([]*Term{bi, bj}, Implies(And(inR(bi), inR(bj), Lt(bi, bj)), Le(cmp(at(newComp, bi), at(newComp, bj)), IntLit(0))), []*Term{at(newComp, bi), at(newComp, bj)}),
 	}
+	// the same facts on the element view at(arr, off, k) that contracts use
+	oldArr, newArr := Select(comp, tgt), Select(newComp, tgt)
+	bk := BoundVar("k", SInt)
+	inW := func(k *Term) *Term { return And(Le(IntLit(0), k), Lt(k, SLen(s))) }
+	viewPerm := Fresh("vperm", ArraySort(SInt, SInt))
+	viewInv := Fresh("vinv", ArraySort(SInt, SInt))
+	facts = append(facts,
+		Forall([]*Term{bk}, Implies(inW(bk), And(inW(Select(viewPerm, bk)), Eq(Select(viewInv, Select(viewPerm, bk)), bk), Eq(At(newArr, SOff(s), bk), At(oldArr, SOff(s), Select(viewPerm, bk))))), []*Term{At(newArr, SOff(s), bk)}),
+		Forall([]*Term{bk}, Implies(inW(bk), And(inW(Select(viewInv, bk)), Eq(Select(viewPerm, Select(viewInv, bk)), bk), Eq(At(newArr, SOff(s), Select(viewInv, bk)), At(oldArr, SOff(s), bk)))), []*Term{At(oldArr, SOff(s), bk)}),
+		Forall([]*Term{bi, bj}, Implies(And(inW(bi), inW(bj), Lt(bi, bj)), Le(cmp(At(newArr, SOff(s), bi), At(newArr, SOff(s), bj)), IntLit(0))), []*Term{At(newArr, SOff(s), bi), At(newArr, SOff(s), bj)}),
+	)
 	e.assume(Implies(e.guard(), And(facts...)))
 	st.Set(elemComp(es), newComp)
 }
